@@ -57,13 +57,13 @@ CHECKS["C02"] = {
     "level": "exploration",
     "technique": "stateful property-based testing (rapid) with harness-owned interleavings at operation and seam granularity, reference-model oracle + deletion/unmap monitors; goroutine stress variant with a prefix-order oracle",
     "rule": ("rapid state machine: writer flushes, an unfinished writer (pending output), synchronous level-0 compactions, obsolete-file passes, reader-cache cleanups (TTL 1ns), reopen, and readers that "
-             "take/read(Load | FindReaders+Get | scan of all files)/close snapshots - also re-entrantly at the listDir/removeDir seams inside deleteObsoleteFiles. Oracle: held snapshot == model content at "
-             "acquisition at every later read; monitors on removeDir/unmap. non-trivial history = some snapshot was read and held across >= 1 compaction commit and >= 1 obsolete-file pass or cache cleanup; "
+             "take/read(Load | FindReaders+Get | scan of all files)/close snapshots - also re-entrantly at the listDir/removeDir seams inside deleteObsoleteFiles and at the open/mmap seams of a reader-cache miss (a second first reader of the file being opened, reads/closes of other snapshots, TTL + cache cleanup) whenever the implementation does not hold the cache lock there; reader profiles: mixed | point readers only (no Load); 2/3/5 open snapshots; invariant reader full | point reads | none; readers finish one by one with a cache cleanup after each. Oracle: held snapshot == model content at "
+             "acquisition at every later read; monitors on removeDir/unmap (mapping identity). TestConcurrentStress second phase: N readers released together on a freshly flushed (cold) file, optional concurrent cache cleanup, partial close, TTL, cleanup; held readers must keep their mapping and value. non-trivial history = some snapshot was read and held across >= 1 compaction commit and >= 1 obsolete-file pass or cache cleanup; "
              "TestConcurrentStress round non-trivial = some snapshot was held across a commit; distinct = history hash"),
     "level_text": ("Exploration of generated interleavings on one goroutine (operation granularity + the seams inside the obsolete-file pass), plus an unsystematic real-goroutine stress run "
                    "(with -race in the thorough tier) whose oracle (snapshot = prefix 1..m of the commit order, lo<=m<=hi, stable on re-read) cannot raise false alarms."),
-    "level_note": "Pre-emption at arbitrary instructions is only reached by the stress variant; rollup bookkeeping (live rollup files) is exercised in C04.",
-    "assumptions": ["cache TTL compared in milliseconds: the harness sleeps 2 ms before a cleanup so that eviction is possible", "store close only with no snapshot held (as in production shutdown)"],
+    "level_note": "Pre-emption at arbitrary instructions is only reached by the stress variant; rollup bookkeeping (live rollup files) is exercised in C04. On the unchanged tree the open seam lies under the cache mutex (counted as cold-open-seam-serialised-by-cache-lock), so reader-vs-reader overlap inside GetReader is only exercised by the goroutine phase (seeded C02e: 10/10 runs detected, 0/20 on HEAD). The order in which lindb opens files of one level is a map iteration, so on trees with the seam outside the lock a rapid replay may diverge ('flaky test', still a failure). Observation: Snapshot.Load never records or releases the readers it retains, so every table file touched by Load is never evicted by the TTL cleanup until the file is deleted (also masks under-counted references; hence the point-reader profile).",
+    "assumptions": ["cache TTL compared in milliseconds: the harness sleeps 2 ms before a cleanup so that eviction is possible", "store close only with no snapshot held (as in production shutdown)", "a version.Snapshot is used by one goroutine (nested readers never use the snapshot whose call is on the stack)"],
     "tests": [
         {"name": "TestSnapshotStability", "quick": 400, "thorough": {"checks": 1500, "shards": 12}},
         {"name": "TestConcurrentStress", "quick": {}, "thorough": {"race": True, "timeout": 3000}},
@@ -124,21 +124,23 @@ CHECKS["C14"] = {
     "pkg": "./c14/",
     "level": "exploration",
     "technique": ("property-based testing (rapid) of every codec against independent reference models, state-machine reuse histories over pooled/held encoder and decoder objects, "
-                  "an independent reference implementation of the documented XOR format in both directions, native fuzz targets for the byte-level entry points"),
+                  "an independent reference implementation of the documented XOR format in both directions, native fuzz targets for the byte-level entry points; owner histories: several pooled decoders / stream readers / pooled encoders / stream writers alive at once with cursors surviving between steps, interleaved at slot granularity; pool-ownership invariant"),
     "rule": ("rapid-generated cases per codec, every case compared bit for bit with a reference model (bit string / slot->value map / sorted set / plain slices). "
              "non-trivial = length >= 2 and (the value sequence forces a XOR window change, or the slot mask is sparse, or the packed/offset width is >= 3 bytes (>= 17 bits for delta), or the "
              "encoder/decoder object had been used before (pool, held object, Reset), or - bitmap - a non-array or >= 2 containers, or - snappy - >= 2 rows / > 64 KiB / reused writer); "
-             "TestTSDReuseHistory = a stored block of >= 2 slots written by a reused encoder or read by a reused decoder; distinct = hash of the canonical rendering of values/masks/offsets/op history"),
+             "TestTSDReuseHistory = a stored block of >= 2 slots written by a reused encoder or read by a reused decoder; it additionally keeps up to 4 owners alive across ~60 steps: pooled decoders bound or rebound to stored blocks, TSDStreamReaders over stored 0-4 field streams (HasNext asked at any time and repeatedly after the end, Next may skip a half-read field, Close drained / at the last field / early / unread), pooled encoders filled a few slots per step, up to two TSDStreamWriters open side by side; owners are advanced in turns, 1-6 slots or to the end of the block, field or stream; at the end all live owners finish one slot per turn; also non-trivial when two owners read or wrote in turns while both were mid-block. TestTSDStream: after one complete reader life cycle, 0-3 readers of the same bytes open together, read field by field one slot each in turns. distinct = hash of the canonical rendering of values/masks/offsets/op history"),
     "level_text": ("Generated-input exploration: per run ~0.5 M codec cases (all IEEE-754 classes incl. NaN payloads, +-0, subnormals, +-Inf; empty/dense/sparse slot masks with start offsets, whole-family blocks "
                    "of up to 3600 slots; offsets up to 2^32-1 with real GetBlock slices for every width 1..4; array/bitmap/run roaring containers; snappy chunks across the 64 KiB block boundary) and reuse "
                    "histories of ~30 steps each. Every read path production code uses on a block is run on every generated block and compared with the same model. The codecs are pure functions of input plus "
                    "object state, so sampling inputs and histories is the appropriate level."),
     "level_note": ("Trusted: math.Float64bits/frombits bit-preserving on amd64. Bitmap and snappy are thin wrappers over lindb/roaring and klauspost/compress: checked through lindb's wrapper API only. "
-                   "DeltaBitPacking, TSDStreamWriter/Reader, TSDDecoder.Seek have no production caller on this tree: checked against their documented contract only (Seek / out-of-order GetValue with a weak oracle)."),
+                   "DeltaBitPacking, TSDStreamWriter/Reader, TSDDecoder.Seek have no production caller on this tree: checked against their documented contract only (Seek / out-of-order GetValue with a weak oracle). Pool ownership (no object handed to a second owner while the first still holds it) is asserted by pointer identity at the end of a case; wrong decoded values are reported first."),
     "assumptions": [
         "slot blocks end at or below slot 65534 (a family holds at most 3600 slots)",
         "callers copy Bytes() before touching the encoder again and consume Uncompress() output before the next call (all production callers do)",
         "offsets in [0, 2^32-1]; 64-bit int",
+        "every Get is matched by at most one Release/Close by the harness; HasNext() has no side effect a caller may rely on or suffer from",
+        "sync.Pool pinned: GOMAXPROCS(1) in TestTSDReuseHistory/TestTSDStream, GC disabled inside a case, decoder pool emptied at case start (the verdict of a case depends on its own history only)",
         "only well-formed encoder output is decoded for the round-trip claims; corrupted input is only checked for 'rejected or harmless' in the fuzz targets",
     ],
     "tests": [
@@ -276,18 +278,18 @@ CHECKS["C19"] = {
     "pkg": "./c19/",
     "level": "exploration",
     "technique": ("property-based testing (rapid) of the production pipeline + baseStage on a real concurrent.Pool with harness-owned completion order "
-                  "(gated plan-node operators), reference model for the started set; wave/stress variants with real concurrent completions (-race in the thorough tier)"),
+                  "(gated plan-node operators; the completion of a released stage is observed at the handlers the pipeline passes to Stage.Execute, through a wrapper stage), reference model for the started set; wave/stress variants with real concurrent completions (-race in the thorough tier)"),
     "rule": ("rapid-generated stage trees (depth 1-4, fan-out 0-4, <= 40 stages; shapes: free sync/async mix, production leaf shape (sync root, async below), all sync, all async, burst), "
-             "outcome per stage ok / ErrNotFound ignored by the plan node / error / ErrNotFound not ignored / panic (string, error, runtime error, other value); fault point of a panicking stage generated: operator (Execute) | Plan() (inline in the goroutine that completed the parent, also for async stages, i.e. on a pool worker of an async ancestor) | NextStages() (after the operator succeeded; no child started) | Complete() (inside completeStage, of a succeeded or failed stage; only as the first panic of a case); plan node single | composite | nil; "
-             "async stages park on a gate inside their operator, gates are released in a generated permutation, the next only after the released stage's Complete() was observed and every newly "
+             "outcome per stage ok / ErrNotFound ignored by the plan node / error / ErrNotFound not ignored / panic (string, error, runtime error, other value); fault point of a panicking stage generated: operator (Execute) | Plan() (inline in the goroutine that completed the parent, also for async stages, i.e. on a pool worker of an async ancestor) | NextStages() (after the operator succeeded; no child started) | Complete() (inside completeStage, of a succeeded or failed stage; only as the first panic of a case); plan node single | composite | nil; Identifier() of a stage generated with deliberate collisions: unique | all/some children of a parent share one identifier (production: one 'Grouping[Shard(n)]' stage per series container, 'TaskSend') | one identifier per (level, sync/async) (production: 'Data Load[family time]' cousins below same-named parents) | per-level alphabet 1-2 | per-tree alphabet 1-3 (parent/child, ancestor, unrelated stages collide); in 1 of 10 serial cases Complete() of about half of the async stages is slow: it returns only after a stage released meanwhile has been handled completely or after 2 ms (one hold at a time); "
+             "async stages park on a gate inside their operator, gates are released in a generated permutation, the next only after the handler the pipeline passed to Execute for the released stage has returned (including the error handler the pool calls after a panic on the worker) and every newly "
              "submitted stage reached its gate; after the last release the pool is stopped (joins all workers) and the callback counter is final. Oracle: callback exactly once; err != nil iff an executed "
-             "stage failed or a stage panicked at any fault point; no stage twice, none below a failed stage; without panics started set == model and callback only after every started stage finished. "
-             "non-trivial = an executed failing/panicking stage that is not the last to finish, or >= 2 async siblings that both ran; distinct = hash of (tree, modes, outcomes, fault points, plan shapes, release order)"),
+             "stage failed or a stage panicked at any fault point; no stage twice, none below a failed stage; without panics started set == model and callback only after every started stage finished (operator ended and the pipeline's handler for it was called; nothing started afterwards). Counted, never a failure by itself: Stage.Complete() of a stage called twice / while its operator runs (classes observed:*). "
+             "non-trivial = an executed failing/panicking stage that is not the last to finish, or >= 2 async siblings that both ran; distinct = hash of (tree, modes, outcomes, fault points, plan shapes, identifiers, holds, release order)"),
     "level_text": ("Exploration of generated (tree, outcome, completion-order) cases on the production pipeline/state machine/baseStage/pool code; completion order is owned by the harness in TestPipelineCompletion "
                    "(deterministic, shrinkable); TestPipelineConcurrentWaves and TestConcurrentCompletionStress add real simultaneous completions (unsystematic; oracle holds for every interleaving)."),
     "level_note": ("Trusted: pool.Stop() joins all workers. Not covered: real leaf/root task processors (LeafExecuteContext.SendResponse), context cancellation / stopped pool (Submit drops the task silently), "
-                   "saturated pools. Complete() panicking as a second panic inside the pool's panic handler is only covered by three fixed shapes run in a child process (TestRegression_CompletePanicsInsidePoolPanicHandler). Pre/Post operators never fail; nil entries in NextStages are not generated. Simultaneous-completion races are only sampled."),
-    "assumptions": ["one pool worker per async stage (a parked stage never blocks another one from starting)", "context never cancelled, pool never stopped during a case",
+                   "saturated pools. Complete() panicking as a second panic inside the pool's panic handler is only covered by three fixed shapes run in a child process (TestRegression_CompletePanicsInsidePoolPanicHandler). Pre/Post operators never fail; nil entries in NextStages are not generated. Simultaneous-completion races are only sampled. Stages of one identifier are generated in flight as siblings/cousins/ancestors/unrelated; Stage.Complete() call discipline and Pipeline.Stats() are observed/counted only, not asserted (the statement speaks about the completion signal). 'Handler returned' at the callback is not asserted (the callback fires inside the last handler)."),
+    "assumptions": ["one pool worker per async stage (a parked stage never blocks another one from starting)", "context never cancelled, pool never stopped during a case", "a held Complete() is bounded by 2 ms of wall clock (liveness bound only; the unchanged pipeline calls Complete() under its lock, so every hold lasts that long)",
                     "sync stages below async stages are generated although today's production trees do not contain them (the property quantifies over every sync/async mix)"],
     "tests": [
         {"name": "TestPipelineCompletion", "quick": 20000, "thorough": {"checks": 200000, "shards": 8}},
@@ -337,7 +339,7 @@ CHECKS["C08"] = {
     "level": "fault_enumeration",
     "technique": ("stateful property-based testing (rapid) of the production leader Partition + remote replicator against the production follower ReplicaHandler + Partition over real FanOutQueues, "
                   "with a harness-owned in-memory stream/unary transport for generated fault injection; invariant oracle over self-describing messages + bounded-progress check"),
-    "rule": ("rapid state machine with 1..3 remote followers (generated; each operation draws its follower; the single replication loop serves one follower at a time and, while it waits for data or for an offline follower, none): "
+    "rule": ("TestReplicationHistory runs three generators, each with the full budget: plain; extended = plain operations + 'write window of the family passes' (no writes, no probe afterwards), 'expiry check' (leader wal task: IsExpire, an expired partition is stopped/closed/removed; additionally evaluated on 6 copies of the log after a leader restart whenever the followers differ in progress), 'leader restart (log kept)', 'several steps of one channel', 'step whose online notification is delivered by another goroutine as soon as the suspension is observable (+0..100000 spins), follower flapping 0..20 times'; onlineRace = 2..10 offline/online cycles whose notifications race the suspension. Additional assertions: a partition whose window is open is never expired; a log is destroyed / a channel stopped only when that follower has appended every position the leader stores; a step whose follower is live and notified finishes within 10 s; after the window passed every follower the leader still replicates to ends up with everything without writes; non-trivial also = expiry check with followers of different progress, or >= 1 racing notification. Plain generator: rapid state machine with 1..3 remote followers (generated; each operation draws its follower; the single replication loop serves one follower at a time and, while it waits for data or for an offline follower, none): "
              "leader appends (8 B..5 KB self-describing messages), single replication steps (partition.replica through the no-wait verif seam), and faults: next stream send fails, next stream "
              "receive fails after the follower appended (lost ack), follower restart (log kept), follower loses its log, follower offline/online notification (suspended replicator), leader sync+gc, "
              "leader restarts from an earlier image of its log or with an empty log (lost tail / whole log) while the followers hold different amounts, resynchronised in generated order; follower cannot append while the stream stays open: "
@@ -350,8 +352,8 @@ CHECKS["C08"] = {
     "level_note": ("The follower's local replicator (applying its log to a tsdb family) is not run; engine objects behind the partitions are light fakes. No timing in the harness: replica.VerifReplicaStepNoWait runs IsReady + Connect and calls partition.replica only if something is pending (otherwise reports that the loop would wait for data); "
                    "a replicator suspended for an offline follower is detected through its isSuspend flag. Known findings: C08/leader-lost-tail-appends-before-resync (appends are not generated while a follower whose channel has not yet resynchronised is ahead of the leader's append index), "
                    "C08/append-index-reset-drops-backlog-of-other-followers (a step whose handshake would reset the append index is skipped while another follower lacks held positions or has a ready channel; such a case may end not judged). "
-                   "A follower that dies from a write to a closed log (ResetReplicaIndex on a closed partition writes into unmapped pages: observation, outside C08) stays down until restarted."),
-    "assumptions": ["a follower restart / offline breaks the stream (as a real connection would)", "1..3 followers; steps of different followers never run concurrently (single loop)", "messages >= 8 bytes", "a whole-log loss invalidates earlier leader images"],
+                   "A follower that dies from a write to a closed log (ResetReplicaIndex on a closed partition writes into unmapped pages: observation, outside C08) stays down until restarted. The family's time range is owned by the harness (far future while open, 2023 afterwards), no clock seam. The expiry verdict depends on Go map order (evaluated 7 times) and the notification race on real goroutine scheduling (seeded C08f: about 1 lost wake-up per 800 racing notifications, ~16000 notifications per quick run, 8/8 runs detected), so failures of these kinds may be reported by rapid as not reproducible. A follower that lost its log after acknowledging everything is not required to catch up once nothing is written."),
+    "assumptions": ["a follower restart / offline breaks the stream (as a real connection would)", "1..3 followers; steps of different followers never run concurrently (single loop)", "messages >= 8 bytes", "a whole-log loss invalidates earlier leader images", "no writes to a family's log after its write window passed (the broker's family channel expires by the same rule)", "the wal task does not run while a replication step is in flight", "leader log loss is not generated after the window passed, and the window does not pass while a resynchronisation after a leader log loss is pending"],
     "tests": [
         {"name": "TestReplicationHistory", "quick": 600, "thorough": {"checks": 4000, "shards": 16}},
         {"name": "TestKnown_LeaderLostTailDiverges", "quick": {}, "thorough": {}},
@@ -493,16 +495,17 @@ CHECKS["C07"] = {
              "or re-uses names of an earlier entry), single local replication steps, flush cycles in production order (FlushMeta, FlushIndex, family.Flush) whose sub-steps interleave freely with appends/replication/log GC. "
              "The history ends with the crash: sampled images (biased to flush/replication/GC windows) are recovered and replayed. Per image: log ack <= sequence stored with the flushed data; "
              "every entry of the recovered log applied >= 1 times, entries at or below the stored sequence exactly once, nothing beyond the log; every entry's row is found by metric name + tag filter + group-by. "
-             "Further operations: (a) records without a write - bytes that are not a snappy stream, a torn prefix of a real record, a stream decoding to zero rows (the storage write rpc does not validate req.Record); they must be skipped, contribute nothing, and the log ack may exceed the stored sequence only across such records; (b) replicaCatchUp; (c) inside each flush sub-step, at drawn table-file operations where the flush job holds neither the family mutex (TryLock probe) nor a kv version lock, the harness runs an append and/or 1-3 replicator steps on the flush goroutine (for family.Flush: between the memdb freeze and the kv commit); (d) the log-removal task usually runs with a caught-up replicator. Images: the end-of-history image always; the last plus one drawn image of each loss window (data-flush commit with replication inside / skipped record above unflushed writes ... next data-flush commit); 3 images between two commits of one sub-step; quick 10 / thorough 30 per history; one in four tableWrite points imaged (drawn). "
+             "Further operations: (a) records without a write - bytes that are not a snappy stream, a torn prefix of a real record, a stream decoding to zero rows (the storage write rpc does not validate req.Record); they must be skipped, contribute nothing, and the log ack may exceed the stored sequence only across such records; (b) replicaCatchUp; (c) inside each flush sub-step, at drawn table-file operations where the flush job holds neither the family mutex (TryLock probe) nor a kv version lock, the harness runs an append and/or 1-3 replicator steps on the flush goroutine (for family.Flush: between the memdb freeze and the kv commit); (d) the log-removal task usually runs with a caught-up replicator. Images: the end-of-history image always; the last plus one drawn image of each loss window (data-flush commit with replication inside / skipped record above unflushed writes ... next data-flush commit); 3 images between two commits of one sub-step; quick 10 / thorough 30 per history; one in four tableWrite points imaged (drawn). (e) 1-3 write-ahead logs per family, one per leader (set drawn from {1},{2},{1,2},{1,3},{2,3},{1,2,3}; node = 1: leader log via BuildReplicaForLeader+WriteLog, follower logs via BuildReplicaForFollower+ReplicaLog), opened at the first record; appends / replica steps / catch-up / GC / skipped records / removal task per log, freely interleaved; every statement is checked per log (ack vs the sequence stored for THAT leader, exactly-once at or below it); after WriteAheadLogManager.Recovery the node's GetReplicaState must report every log directory and an ack <= the stored sequence of its own leader (beyond it only over records without a write); images with >= 2 logs are replayed half by the production loops, half by harness-driven replicator steps in a drawn interleaving (NewPartitionFn seam); an entry introduces names iff no applied entry wrote its series before. (f) I/O faults: in 30%/10%/8% of flushMeta/flushIndex/flushFamily sub-steps the k-th tableCreate|tableWrite|tableClose|manifestWrite fails (not performed; close performed but reports the error); a failed metadata/index flush abandons the cycle as doFlush does. (g) flushJob: the production dataFlushChecker.doFlush (tsdb.VerifFlushDatabaseSync, requests built as Database.Flush) as one operation with race plans per sub-step and at most one fault; images additionally: the last and one drawn image of every fault window (failed operation ... next metadata flush). "
              "crash-point non-trivial = recovered image has entries above and below the persisted sequence; distinct = (history, image tag) hash"),
     "level_text": ("Fault enumeration at file-system-operation / page-store granularity over generated histories of the real node: every crash point of a history is imaged, a generated sample is recovered with the production recovery code "
                    "and checked end to end (log -> replay -> query)."),
-    "level_note": ("Process-crash model (directory image; mmap'd pages as stored). One shard, one data family, one leader. Known finding C07/name-created-inside-flush-cycle-persisted-with-data: replication steps that introduce new names "
+    "level_note": ("Process-crash model (directory image; mmap'd pages as stored). One shard, one data family, 1-3 leader logs. Faults: one failing table/manifest operation per sub-step (fail-stop of that operation; no fsync/sequence-file faults; flush failures are read as part of the histories the property quantifies over). Known finding C07/name-created-inside-flush-cycle-persisted-with-data: replication steps that introduce new names "
                    "are not taken inside a flush cycle while the finding is listed (steps that only write to existing series still race with the cycle; new-name steps are allowed inside family.Flush after the freeze)."),
-    "assumptions": ["crash = process death", "writes reach the family only through the local replicator (as in production)", "flush sub-steps in production order", "records decoding to a non-empty malformed block are not generated", "an actor blocked on a lock of the flush job is equivalent to running it at the next eligible point"],
+    "assumptions": ["crash = process death", "writes reach the family only through the local replicator (as in production)", "flush sub-steps in production order", "records decoding to a non-empty malformed block are not generated", "an injected fault makes one operation return an error without performing it (tableClose: performed, reports the error)", "the local replicator is the only consumer group of a log (no remote followers)", "a sequential interleaving of the replicator steps of several logs is one legal schedule of the free-running loops", "an actor blocked on a lock of the flush job is equivalent to running it at the next eligible point"],
     "tests": [
         {"name": "TestNodeCrashRecovery", "quick": {"checks": 12, "shards": 4}, "thorough": {"checks": 40, "shards": 16}},
         {"name": "TestKnown_NameCreatedInsideFlushCycle", "quick": {}, "thorough": {}},
+        {"name": "TestRegression_.*", "quick": {}, "thorough": {}},
     ],
 }
 
@@ -515,7 +518,7 @@ CHECKS["C12"] = {
                   "leaf-side receiver split checked as a partition; production broker.StateManager plans replayed in regression tests; send-interleaved delivery schedules (responses handled while the sender is still sending the plan's requests); goroutine stress of concurrent response handling on a multi-worker root pool with asymmetric payloads"),
     "rule": ("case = (data set, query, layout, topology, delivery schedule). Data: 1-3 metrics, 2-12 series (tag keys from host/zone/dc; in half of the multi-key metrics a series carries only a non-empty subset of the metric's keys; series may report only some fields), sum/min/max/last/first fields, values k/8, 1-2 families, "
              "one row per series and ingestion request in time order. Query: select list (plain / sum / min / max / last / first as series/field/type.go allows) or *, optional tag condition (=, !=, in, not in, and/or), "
-             "time range, group by time(10s..300s), group by tags; group by / tag conditions may name keys that some series of the metric lack (such a series is in no group and is selected by no atom on that key). TestLayoutIndependence non-trivial = >= 2 leaves answered with data and a delivery order different from the send order was run, "
+             "time range, group by time(10s..300s), group by tags, optional limit clause without order by (none = parser default 20, 1..4, groups-1..groups+1, 20 / 100 / 1000000); 1 of 8 data sets is wide (first metric 40-70 series over 30 hosts x zone/dc, 1-2 points each), so `group by host` exceeds the default limit with each group's series spread over the shards; group by / tag conditions may name keys that some series of the metric lack (such a series is in no group and is selected by no atom on that key). A group-by query is compared with its complete answer (same statement, limit 1000000, reference layout); the complete statement is also run under every layout and must be equal; where the complete answer under a layout has more series than the limit, every execution must hold at most limit series, all different, every returned group with values must be a group of the complete answer with exactly its cells and values, and an answer with fewer than limit series must hold every group with values (which groups are returned is unspecified). TestLayoutIndependence non-trivial = >= 2 leaves answered with data and a delivery order different from the send order was run, "
              "or the intermediate node merged >= 2 leaf answers with data. TestReceiverSplit non-trivial = some group was sent by >= 2 leaves and >= 2 receivers got data. distinct = hash of data+query+layout+topology. "
              "Delivery schedule: either all responses after all requests in every order (n!), or send-interleaved: the response of the target contacted i-th is handed to the sender (root, or the intermediate node) inside the transport's SendRequest of request number At[i] >= i - i.e. while the sender still has requests to send - or after the last request; fixed schedule 'every node answers at once' plus 2 drawn schedules per (query, layout) at the root, 'at once' + 1 drawn at the intermediate node. A send-interleaved case is non-trivial when >= 2 leaves answered with data and >= 1 response was handed over while requests remained. "
              "TestConcurrentResponseHandling: case = (2-4 leaves, one with 1500-3000 series and the others with 1-3, placed by the production routing; 1-3 queries out of group by host / host+time / zone / host+zone / none / none+time with limit 1000000; R = 12-24 executions each). The root handles responses on a production worker pool of 8 workers and the leaf responses of an execution are handed to its task manager from one goroutine each, released by a barrier at the same instant. Every execution must give the answer of the 1-shard/1-node layout; a single wrong execution is a violation (no re-execution rule). Non-trivial = >= 2 leaves answered with data and the largest payload is >= 100 times the smallest"),
@@ -523,9 +526,9 @@ CHECKS["C12"] = {
                    "classes recorded: leaves with data / empty answer / not-found, first/last/all-but-one/all not-found, fields differing between leaves, shards, leaves, functions."),
     "level_note": ("Production code: routing (BrokerBatchRows.NewShardGroupIterator), write path, leaf/intermediate/root processors, task managers, planner. Harness: transport, streams, response pool (inline), state-manager answers. "
                    "first/last cells fed by >= 2 series or >= 2 families are only required to hold one of the candidate values (merge order undocumented). Storage state fixed to memory (C11/C03). "
-                   "Plans with several compute targets / the root as compute node cannot complete on this tree (known findings): covered by regression tests, not by the property. Every node of every layout is additionally read back alone (ungrouped and grouped by each tag-key set present) against the naive model. A disagreement counts only if the same execution (query, layout, delivery order) disagrees 3 times in a row; answers not reproduced on re-execution are counted in the class info:answer-not-reproduced-on-re-execution (the timing-dependent leaf double-reduce, fixed by 456d3fc, is covered by its own repeated-query regression test). The harness also owns the point at the end of the transport's SendRequest. Schedules are positional because production contacts the targets in map-iteration order; which node answers early is therefore not controlled (counted in info:sched:*). A response refused by the sender because it had already finished the request counts as a violation. In TestConcurrentResponseHandling the interleaving of the workers is not controlled (real goroutines, sampled): measured detection of seeded C12c is 10/10 quick runs; a failing case may not reproduce on replay and rapid may report it as flaky (still a failure)."),
-    "assumptions": ["TZ=UTC", "every series carries at least one tag", "<= 12 series per case (default series limit 20 not reached)", "<= 1 row per series per ingestion request, rows of a series in time order",
-                    "no order by / limit / having / rate / histogram in the query space", "one storage interval (10s), ranges < 1h", "TestConcurrentResponseHandling: one data family, sum/min/max fields only, explicit limit 1000000"],
+                   "Plans with several compute targets / the root as compute node cannot complete on this tree (known findings): covered by regression tests, not by the property. Every node of every layout is additionally read back alone (ungrouped and grouped by each tag-key set present) against the naive model. A disagreement counts only if the same execution (query, layout, delivery order) disagrees 3 times in a row; answers not reproduced on re-execution are counted in the class info:answer-not-reproduced-on-re-execution (the timing-dependent leaf double-reduce, fixed by 456d3fc, is covered by its own repeated-query regression test). The harness also owns the point at the end of the transport's SendRequest. Schedules are positional because production contacts the targets in map-iteration order; which node answers early is therefore not controlled (counted in info:sched:*). A response refused by the sender because it had already finished the request counts as a violation. In TestConcurrentResponseHandling the interleaving of the workers is not controlled (real goroutines, sampled): measured detection of seeded C12c is 10/10 quick runs; a failing case may not reproduce on replay and rapid may report it as flaky (still a failure). Series without values in the time range are returned by this tree and count towards the limit (observation test TestRegression_LimitCountsGroupsWithoutValuesInTheTimeRange, never fails): the cut is therefore decided by the series count of the complete answer per layout. Detection of a leaf-side cut (seeded C12e) is probabilistic per execution (map order) but reached within 3-32 cases at 5 seeds."),
+    "assumptions": ["TZ=UTC", "every series carries at least one tag", "<= 12 series per case, or a wide case of 41-74 series", "<= 1 row per series per ingestion request, rows of a series in time order",
+                    "no order by / having / rate / histogram in the query space; limit >= 1", "one storage interval (10s), ranges < 1h", "TestConcurrentResponseHandling: one data family, sum/min/max fields only, explicit limit 1000000"],
     "tests": [
         {"name": "TestLayoutIndependence", "quick": 150, "thorough": {"checks": 400, "shards": 16}},
         {"name": "TestReceiverSplit", "quick": 500, "thorough": {"checks": 3000, "shards": 4}},
